@@ -563,6 +563,18 @@ fn is_merge_key(node: &KeyNode) -> bool {
     )
 }
 
+/// True if a scalar merge value (or an element of a merge sequence) is YAML null.
+///
+/// A scalar is null when it is tagged `!!null`, or is a plain null-like text (`~`, `null`,
+/// empty), unless a tag forces it to be a string (`!!str`, or the non-specific tag `!`):
+/// `<<: !!str null` merges the string "null", which is not a mapping.
+#[inline]
+fn merge_scalar_is_null(value: &str, style: &ScalarStyle, tag: &SfTag) -> bool {
+    (tag == &SfTag::Null || scalar_is_nullish(value, style))
+        && tag != &SfTag::String
+        && tag != &SfTag::NonSpecific
+}
+
 /// Expand a merge value node into a queue of `PendingEntry`s in correct order.
 ///
 /// Arguments:
@@ -582,9 +594,9 @@ fn pending_entries_from_events<'a>(
 ) -> Result<Vec<PendingEntry<'a>>, Error> {
     let mut replay = ReplayEvents::with_reference(events, reference_location);
     match replay.peek()? {
-        Some(Ev::Scalar { value, style, .. }) if scalar_is_nullish(value.as_ref(), style) => {
-            Ok(Vec::new())
-        }
+        Some(Ev::Scalar {
+            value, style, tag, ..
+        }) if merge_scalar_is_null(value.as_ref(), style, tag) => Ok(Vec::new()),
         Some(Ev::Scalar { location, .. }) => Err(Error::MergeValueNotMapOrSeqOfMaps {
             location: *location,
         }),
@@ -647,7 +659,9 @@ fn pending_entries_from_live_events<'a>(
     merge_reference_location: Location,
 ) -> Result<Vec<PendingEntry<'a>>, Error> {
     match ev.peek()? {
-        Some(Ev::Scalar { value, style, .. }) if scalar_is_nullish(value.as_ref(), style) => {
+        Some(Ev::Scalar {
+            value, style, tag, ..
+        }) if merge_scalar_is_null(value.as_ref(), style, tag) => {
             let _ = ev.next()?;
             Ok(Vec::new())
         }
